@@ -1,18 +1,21 @@
 (* C01, part c01json - the JSON/map form of serix round-trips: MapEncode/JSONEncode then MapDecode/JSONDecode
    gives back every value that form can express.  Statements only.  [jencode]/[jdecode true] model
-   map_encode.go / map_decode.go as they are now (after commits 4262ca0, 81cafca, 8fc6fcd). *)
+   map_encode.go / map_decode.go as they are now (after commits 4262ca0, 81cafca, 8fc6fcd, 9d20a03, bb76e84). *)
 From Coq Require Import ZArith NArith List Bool String.
 From Verif.C01_SerixJson Require Import Model Ind ProofsLeaf ProofsC01 ProofsC02.
 Import ListNotations.
 
 (* For EVERY schema of the modelled fragment (bool; int8..uint64; string; []byte; [n]byte; *big.Int; time.Time;
-   structs by value or pointer with required / optional fields and object codes; slices; arrays; maps;
+   structs by value or pointer with required / optional / omitempty fields and object codes; slices; arrays; maps;
    interfaces with registered alternatives - nested arbitrarily) and EVERY value of that type.
    Guards: [wf_schema] (distinct field keys, none equal to "type" next to an object code, uint32 codes, map
-   keys of string/int64/uint64/time/[n]byte type, 'optional' only on nil-able fields, alternatives are value
+   keys of string/int64/uint64/time/[n]byte type, 'optional' only on nil-able fields, 'omitempty' not on maps,
+   arrays and by-value structs (where the model's identification of nil and empty collections would blur
+   reflect.IsZero), alternatives are value
    structs with their own distinct codes) and [has_type] (integers within their width, big.Int in [0, 2^256),
    time within [0, MaxInt64] ns - outside, TimeToUint64 clamps by design -, distinct map keys, non-optional
-   pointers and interfaces non-nil).  NaN/Inf do not arise: float fields are outside the fragment. *)
+   pointers and interfaces non-nil; an 'omitempty' field may also hold its empty value whatever it is: the zero
+   time.Time, a nil pointer / interface / *big.Int).  NaN/Inf do not arise: float fields are outside the fragment. *)
 Theorem C01_json_roundtrip : forall (s : schema) (v : value),
   wf_schema s = true -> has_type s v = true ->
   exists j, jencode s v = Ok j /\ jdecode true s j = Ok v.
@@ -29,6 +32,22 @@ Proof. exact jroundtrip_top. Qed.
 Theorem C01_json_encode_well_formed : forall s v j, jencode s v = Ok j -> json_ok j = true.
 Proof. exact jencode_json_ok. Qed.
 
+(* Robustness of the encoder (beyond the statement of C01, which is about values the JSON form can express): for
+   EVERY schema and EVERY model value - well typed or not, e.g. a map whose key type encodes to a number, or a nil
+   non-optional *big.Int - MapEncode/JSONEncode return a document or an error, never panic (after the fix: commits
+   9d20a03 and bb76e84; before, these two inputs panicked). *)
+Theorem C01_json_encode_no_panic : forall (s : schema) (v : value), jencode s v <> Panic.
+Proof. intros s v H. pose proof (jencode_no_panic s v) as N. rewrite H in N. discriminate. Qed.
+
+Theorem C01_json_encode_top_no_panic : forall (s : schema) (v : value), jencode_top s v <> Panic.
+Proof. intros s v H. pose proof (jencode_top_no_panic s v) as N. rewrite H in N. discriminate. Qed.
+
+Example C01_json_encode_former_panics :
+  jencode (SStruct false None [("m", FReq, SArr 1 (SMap (SNum U16) SBool))]%string)
+          (VList [VList [VMap [(VInt 1, VBool true)]]]) = Err EUnsupported /\
+  jencode (SStruct false None [("b", FReq, SU256)]%string) (VList [VNil]) = Err ENil.
+Proof. exact jencode_former_panics. Qed.
+
 (* Non-vacuity: a nested schema with every constructor, and a value of it. *)
 Definition ex_alt : schema := SStruct false (Some 7%N) [("q", FReq, SNum U16)]%string.
 Definition ex_schema : schema :=
@@ -39,14 +58,16 @@ Definition ex_schema : schema :=
      ("sl", FReq, SSlice (SStruct true None [("a", FReq, SNum I32)]));
      ("aI", FReq, SArr 2 (SNum I16));
      ("m", FReq, SMap SI64 (SSlice SString));
-     ("if", FOptional, SIface [(7%N, ex_alt)])]%string.
+     ("if", FOptional, SIface [(7%N, ex_alt)]);
+     ("om", FOmit, SNum U8); ("os", FOmit, SSlice SString); ("ot", FOmit, STime); ("op", FOmit, SU256)]%string.
 Definition ex_value : value :=
   VList [VInt (-128); VInt (-9223372036854775808); VInt 18446744073709551615; VStr "hi"; VBool true;
          VStr "ab"; VStr "xy"; VInt 255; VInt 5; VNil;
          VList [VPtr (VList [VInt 1]); VPtr (VList [VInt (-2)])];
          VList [VInt 5; VInt (-6)];
          VMap [(VInt (-1), VList [VStr "a"]); (VInt 1, VList [])];
-         VIface 7 (VList [VInt 65535])]%string.
+         VIface 7 (VList [VInt 65535]);
+         VInt 0; VList [VStr "z"]; VInt zero_time; VNil]%string.
 
 Example C01_json_roundtrip_nonvacuous :
   wf_schema ex_schema = true /\ has_type ex_schema ex_value = true /\
@@ -57,7 +78,8 @@ Example C01_json_roundtrip_nonvacuous :
               ("sl", JArr [JObj [("a", JNum 1)]; JObj [("a", JNum (-2))]]);
               ("aI", JArr [JNum 5; JNum (-6)]);
               ("m", JObj [("-1", JArr [JStr "a"]); ("1", JArr [])]);
-              ("if", JObj [("type", JNum 7); ("q", JNum 65535)])]%string).
+              ("if", JObj [("type", JNum 7); ("q", JNum 65535)]);
+              ("os", JArr [JStr "z"])]%string).
 Proof. vm_compute. repeat split. Qed.
 
 (* The pinned code did not round-trip arrays of non-byte elements (JSON analogue of D01a, repaired by 81cafca),
@@ -75,4 +97,8 @@ Qed.
 Print Assumptions C01_json_roundtrip.
 Print Assumptions C01_json_roundtrip_top.
 Print Assumptions C01_json_encode_well_formed.
+Print Assumptions C01_json_roundtrip_nonvacuous.
 Print Assumptions C01_refuted_json_array_pinned.
+Print Assumptions C01_json_encode_no_panic.
+Print Assumptions C01_json_encode_top_no_panic.
+Print Assumptions C01_json_encode_former_panics.
